@@ -19,6 +19,22 @@ def record(msg, last=True):
     return struct.pack("!I", (0x80000000 if last else 0) | len(msg)) + msg
 
 
+WELL_KNOWN_PROGS = [100000, 100003, 100005, 100021, 100024, 100227, 100011, 391002]
+
+
+def xdr_string(b):
+    return struct.pack("!I", len(b)) + b + bytes(-len(b) % 4)
+
+
+def pmap_args(rng, vers):
+    """Arguments of portmapper SET / UNSET / GETPORT (v2: mapping) resp. rpcbind SET / UNSET / GETADDR (v3/v4: rpcb)."""
+    prog, pv = rng.choice(WELL_KNOWN_PROGS), rng.choice([1, 2, 3, 4])
+    if vers == 2:
+        return struct.pack("!IIII", prog, pv, rng.choice([6, 17]), rng.choice([0, 111, 2049, 20048, rng.getrandbits(16)]))
+    netid = rng.choice([b"tcp", b"udp", b"tcp6", b"udp6"])
+    return struct.pack("!II", prog, pv) + xdr_string(netid) + xdr_string(rng.choice([b"", b"0.0.0.0.8.1", b"::.0.111"])) + xdr_string(rng.choice([b"", b"superuser", b"rpcuser"]))
+
+
 def gen_call(rng, prog=None, vers=None, proc=None, maxauth=40):
     """-> dict(xid, prog, vers, proc, msg)  (msg = UDP payload; TCP payload = record(msg))."""
     xid = rng.getrandbits(32)
@@ -33,6 +49,8 @@ def gen_call(rng, prog=None, vers=None, proc=None, maxauth=40):
     cred = bytes(rng.getrandbits(8) for _ in range(cl))
     verf = bytes(rng.getrandbits(8) for _ in range(vl))
     args = bytes(rng.getrandbits(8) for _ in range(4 * rng.randrange(0, 6))) if rng.random() < 0.5 else b""
+    if prog == PMAP and proc in (1, 2, 3) and rng.random() < 0.6:
+        args = pmap_args(rng, vers)
     m = call(xid, prog, vers, proc, cred, verf, args, cred_flavor=rng.choice([0, 1]), verf_flavor=0)
     return {"xid": xid, "prog": prog, "vers": vers, "proc": proc, "msg": m,
             "trigger": 24 + 8 + cl + 8 + vl - 1}      # index (in msg) of the last byte of the verifier
